@@ -243,6 +243,14 @@ func (m *c07monitor) touch(n parsley.Node) {
 	}
 }
 
+// c07previous: results of the PREVIOUS parse, kept across cases. A later, unrelated parse must not change them either
+// (state the library keeps between parses - pools, caches - must never alias what it has handed out).
+var c07previous struct {
+	m     *c07monitor
+	snaps []c07snap
+	desc  map[string]any
+}
+
 func c07case(c GCase, a *run.Acc) {
 	if !a.Begin() {
 		return
@@ -312,6 +320,19 @@ func c07case(c GCase, a *run.Acc) {
 	b := gram.Build(c.G, h)
 	o := gram.Run(env, b.NTs[c.NT], c.Pos)
 	a.Count("probe_events", int64(gd.Events))
+	// after this case's parse: the previous case's results must still read as they did when they were returned
+	if prev := c07previous.m; prev != nil {
+		for i := range c07previous.snaps {
+			s := &c07previous.snaps[i]
+			if changed, byK1 := prev.diff(s.rec, s.node, false, 0); changed && !byK1 {
+				d := map[string]any{"earlier_parse": c07previous.desc, "later_parse": c.Describe(), "returned_by": s.expr, "at_return": s.full, "after_the_later_parse": prev.str(s.node, false)}
+				a.Violate("result-of-an-earlier-parse-modified-by-a-later-parse", "result-of-an-earlier-parse-modified-by-a-later-parse", d)
+				break
+			}
+		}
+		a.Count("results of the previous parse re-read after the next parse", int64(len(c07previous.snaps)))
+		c07previous.m = nil
+	}
 	if o.Budget != "" {
 		a.Count("inconclusive:budget ("+o.Budget+")", 1)
 		return
@@ -322,6 +343,14 @@ func c07case(c GCase, a *run.Acc) {
 		return
 	}
 	a.Count("judged", 1)
+	// keep up to 150 of this parse's results for the cross-parse re-check of the next case
+	keep := m.snaps
+	if len(keep) > 150 {
+		keep = keep[len(keep)-150:]
+	}
+	defer func() {
+		c07previous.m, c07previous.snaps, c07previous.desc = m, append([]c07snap{}, keep...), c.Describe()
+	}()
 	a.Count("snapshots taken", int64(len(m.snaps)))
 	a.Count("snapshots dropped (cap)", int64(m.dropped))
 	for _, cf := range m.conflict {
@@ -397,6 +426,7 @@ func c07plan(tier string, seed int64) []run.Job {
 	}
 	for i := 0; i < nr; i++ {
 		jobs = append(jobs, run.Job{Family: "random", Seed: seed*100000 + int64(i), N: per, P: map[string]int{"strat": 1, "maxlen": 7, "inputs": 5}})
+		jobs = append(jobs, run.Job{Family: "random", Seed: seed*100000 + 20000 + int64(i), N: per, P: map[string]int{"strat": 0, "maxlen": 7, "inputs": 5, "ends": 1}})
 		jobs = append(jobs, run.Job{Family: "mutual", Seed: seed*100000 + 50000 + int64(i), N: per / 2, P: map[string]int{"inputs": 5, "maxlen": 8}})
 		jobs = append(jobs, run.Job{Family: "sharing", Seed: seed*100000 + 60000 + int64(i), N: per * 6, P: map[string]int{"trims": 0}})
 		jobs = append(jobs, run.Job{Family: "sharing", Seed: seed*100000 + 70000 + int64(i), N: per * 3, P: map[string]int{"trims": 1}})
